@@ -1161,10 +1161,16 @@ class Verifier(QuantMixin, LoopMixin, ExprMixin, CallMixin, StmtMixin, BuiltinsM
         raise Unsupported(f'cannot pin to {q}')
 
     def havoc_modifies(self, ct: Contract, env: Dict[str, Any]) -> None:
+        # every entry names a location of the callee's PRE-state: resolve all of them before havocking any
+        mod = self.index.modules.get(ct.module)
+        pre = {}
         for loc in ct.modifies:
-            self.havoc_location(loc, env)
+            if not (loc == '$fresh' or (loc.startswith('$') and '(' not in loc)):
+                pre[loc] = self.loc_target(loc, env, mod)
+        for loc in ct.modifies:
+            self.havoc_location(loc, env, pre.get(loc))
 
-    def havoc_location(self, loc: str, env: Dict[str, Any]) -> None:
+    def havoc_location(self, loc: str, env: Dict[str, Any], resolved=None) -> None:
         """loc: 'param.attr' (attribute cell) | '$seq(param.attr)' | '$dict(param.attr)' contents"""
         if loc == '$fresh':
             # contents of every container allocated by the analysed call so far (its private temporaries)
@@ -1183,35 +1189,30 @@ class Verifier(QuantMixin, LoopMixin, ExprMixin, CallMixin, StmtMixin, BuiltinsM
         if loc.startswith('$') and '(' not in loc:
             self.havoc_ghost(loc[1:])
             return
-        kind = 'attr'
-        expr = loc
-        if loc.startswith('$seq(') or loc.startswith('$dict('):
-            kind = loc[1:loc.index('(')]
-            expr = loc[loc.index('(') + 1:-1]
-        parts = expr.split('.')
-        v = env[parts[0]]
-        path = parts[1:]
+        cur = getattr(self, 'current_contract', None)
+        kind, r, attr, _ok = resolved if resolved is not None else \
+            self.loc_target(loc, env, self.index.modules.get(cur.module) if cur is not None else None)
         if kind == 'attr':
-            for a in path[:-1]:
-                v = self.get_attr(v, a)
-            nv = self.fresh(f'hv_{path[-1]}')
+            owner = smt.simp(Val.ref(r))
+            nv = self.fresh(f'hv_{attr}')
             self.mark_external(nv)               # whatever the callee stored is not one of OUR allocations
-            self.set_attr_raw(v, path[-1], nv)
-            oc = self.class_of(v)
-            ft = self.field_type(oc, path[-1]) if oc is not None else None
+            self.set_attr_raw(owner, attr, nv)
+            oc = self.class_of(owner)
+            ft = self.field_type(oc, attr) if oc is not None else None
             if ft is not None:
                 self.apply_field_type(nv, ft)    # class invariant of the owner (field typing)
             return
-        for a in path:
-            v = self.get_attr(v, a)
-        r = Val.r(v)
-        if kind == 'seq':
-            self.st.seq = z3.Store(self.st.seq, r, self.fresh('hv_seq', smt.SeqV))
-        else:
-            self.st.dct = z3.Store(self.st.dct, r, self.fresh('hv_dict', smt.DictV))
+        # a path that names no object (absent cell) names no location: conditional havoc
+        ok = smt.simp(_ok)
+        if kind in ('seq', 'contents'):
+            self.st.seq = z3.Store(self.st.seq, r, z3.If(ok, self.fresh('hv_seq', smt.SeqV), z3.Select(self.st.seq, r)))
+            self.writes.append(('$seq', r, ok))
+        if kind in ('dict', 'contents'):
+            self.st.dct = z3.Store(self.st.dct, r, z3.If(ok, self.fresh('hv_dict', smt.DictV), z3.Select(self.st.dct, r)))
             n = self.fresh('hv_dlen', smt.I)
             self._add_axiom(n >= 0)
-            self.st.dlen = z3.Store(self.st.dlen, r, n)
+            self.st.dlen = z3.Store(self.st.dlen, r, z3.If(ok, n, z3.Select(self.st.dlen, r)))
+            self.writes.append(('$dict', r, ok))
 
     # ==================================================================================== top level
     def on_failed_obligation(self, ob: Obligation) -> None:
@@ -1377,6 +1378,7 @@ class Verifier(QuantMixin, LoopMixin, ExprMixin, CallMixin, StmtMixin, BuiltinsM
                 raise Infeasible()
             self.old = self.st.snapshot()
             self.writes = []
+            self.frame_hook = lambda: self.check_frame(fi, ct, vals)
             try:
                 result = self.call_function(target, args, kwargs, star, dstar)
                 outcome = 'return'
@@ -1503,5 +1505,76 @@ class Verifier(QuantMixin, LoopMixin, ExprMixin, CallMixin, StmtMixin, BuiltinsM
                     self.oblige('ensures_on', cl.name, self.clause_holds(cl, env), ct.props_of(cl.name))
         self.check_frame(fi, ct, vals)
 
+    def loc_target(self, loc: str, env: Dict[str, Any], module=None):
+        """(kind, owner ref term, attribute) of a modifies entry: 'p.a.b' -> ('attr', r(p.a), 'b');
+        '$seq(p.a)' / '$dict(p.a)' -> contents of that container; a bare parameter 'p' -> contents of p"""
+        kind, expr = 'attr', loc
+        if loc.startswith('$seq(') or loc.startswith('$dict('):
+            kind = loc[1:loc.index('(')]
+            expr = loc[loc.index('(') + 1:-1]
+        parts = expr.split('.')
+        if parts[0] in env:
+            v, path = env[parts[0]], parts[1:]
+        else:
+            # a module-level / external global named from the contract module (e.g. flask.request)
+            if module is None:
+                raise Unsupported(f'modifies entry {loc}: unknown root {parts[0]}')
+            fr = Frame(None, module)
+            v, path = self.lookup_name(parts[0], fr, None), parts[1:]
+        def step(v, a):
+            # raw cell read (no branching, no AttributeError): an absent cell names no object - see the guard
+            return smt.simp(z3.Select(self.attr_array(a), Val.r(v)))
+        if kind == 'attr':
+            if not path:
+                return ('contents', smt.simp(Val.r(v)), None, Val.is_ref(v))
+            for a in path[:-1]:
+                v = step(v, a)
+            return ('attr', smt.simp(Val.r(v)), path[-1], Val.is_ref(v))
+        for a in path:
+            v = step(v, a)
+        return (kind, smt.simp(Val.r(v)), None, Val.is_ref(v))
+
     def check_frame(self, fi: FuncInfo, ct: Contract, vals: Dict[str, Any]) -> None:
-        pass
+        """frame condition: every heap cell written (directly, by an inlined callee, or havocked on behalf of a callee
+        contract) belongs to an object allocated by this very call or is listed in `modifies`.  The listed locations
+        are resolved in the ENTRY state."""
+        if ct.extra.get('lemma') or ct.extra.get('frame_unchecked'):
+            return
+        pending = [(f, smt.simp(r), g) for f, r, g in self.writes]
+        seen = set()
+        todo = []
+        for f, r, g in pending:
+            if z3.is_int_value(r) and r.as_long() >= smt.FRESH_BASE:
+                continue
+            g = None if isinstance(g, str) or z3.is_true(g) else g
+            k = (f, r.get_id(), g.get_id() if g is not None else 0)
+            if k in seen:
+                continue
+            seen.add(k)
+            todo.append((f, r, g))
+        if not todo:
+            return
+        allowed = []
+        cur = self.st.snapshot()
+        self.st.restore(self.old)
+        w0 = len(self.writes)
+        try:
+            mod = self.index.modules.get(ct.module)
+            for loc in ct.modifies:
+                if loc.startswith('$') and '(' not in loc:
+                    continue
+                allowed.append(self.loc_target(loc, vals, mod))
+        finally:
+            del self.writes[w0:]
+            self.st.restore(cur)
+        for f, r, g in todo:
+            opts = [r >= smt.FRESH_BASE]
+            for kind, ar, attr, ok in allowed:
+                if (kind == 'attr' and f == attr) or (kind == 'seq' and f == '$seq') or \
+                        (kind == 'dict' and f == '$dict') or (kind == 'contents' and f in ('$seq', '$dict')):
+                    opts.append(z3.And(ok, r == ar))
+            what = {'$seq': 'the items of', '$dict': 'the entries of'}.get(f, f'attribute {f} of')
+            self.oblige('frame', f'writes {what} an object that is neither allocated by this call nor listed in '
+                                 f'modifies={list(ct.modifies)}',
+                        z3.Or(*opts) if g is None else z3.Implies(g, z3.Or(*opts)), ct.props_of('modifies'),
+                        info={'write': f})
